@@ -12,6 +12,10 @@ class Socket(_Socket):
 
     RETRY_TIME = 0.1
 
+    # TCP is a byte stream: every message is sent as its length (4 bytes, big endian)
+    # followed by that many bytes, so that the receiver can find the message boundaries
+    LENGTH_BYTES = 4
+
     def __init__(
         self,
         app_name,
@@ -33,6 +37,9 @@ class Socket(_Socket):
         self._logger = get_netqasm_logger(f"{self.__class__.__name__}({app_name} <-> {remote_app_name})")
         self._app_socket = None
 
+        # Bytes received from the remote node that are not yet returned as a message
+        self._recv_buf = b""
+
         self._connect()
 
     def __del__(self):
@@ -43,12 +50,12 @@ class Socket(_Socket):
         """Sends a message to the remote node."""
         self._logger.debug(f"Sending msg '{msg}'")
         raw_msg = self._serialize_msg(msg=msg)
-        self._app_socket.send(raw_msg)
+        self._send_raw(raw_msg)
 
     def send_structured(self, msg):
         self._logger.debug(f"Sending structured msg '{msg}'")
         raw_msg = self._serialize_structured_msg(msg=msg)
-        self._app_socket.send(raw_msg)
+        self._send_raw(raw_msg)
 
     def send_silent(self, msg):
         self.send(msg)
@@ -56,26 +63,39 @@ class Socket(_Socket):
     def recv(self, block=True, maxsize=1024):
         """Receive a message from the remote node."""
         self._logger.debug("Receiving msg")
-        self._app_socket.setblocking(block)
-        raw_msg = self._app_socket.recv(maxsize)
-        if not block and not raw_msg:
-            raise RuntimeError("No message to receive (not blocking)")
+        raw_msg = self._recv_raw(block=block, maxsize=maxsize)
         msg = self._deserialize_msg(raw_msg=raw_msg)
         self._logger.debug(f"Msg '{msg}' received")
         return msg
 
     def recv_structured(self, block=True, maxsize=1024):
         self._logger.debug("Receiving structured msg")
-        self._app_socket.setblocking(block)
-        raw_msg = self._app_socket.recv(maxsize)
-        if not block and not raw_msg:
-            raise RuntimeError("No message to receive (not blocking)")
+        raw_msg = self._recv_raw(block=block, maxsize=maxsize)
         msg = self._deserialize_structured_msg(raw_msg=raw_msg)
         self._logger.debug(f"Msg '{msg}' received")
         return msg
 
     def recv_silent(self):
         return self.recv()
+
+    def _send_raw(self, raw_msg):
+        self._app_socket.sendall(len(raw_msg).to_bytes(self.LENGTH_BYTES, "big") + raw_msg)
+
+    def _recv_raw(self, block, maxsize):
+        """Returns the bytes of the next message. A read from the socket (at most `maxsize` bytes)
+        can bring a part of a message or several messages, what is left over is kept for the next call."""
+        self._app_socket.setblocking(block)
+        while True:
+            if len(self._recv_buf) >= self.LENGTH_BYTES:
+                end = self.LENGTH_BYTES + int.from_bytes(self._recv_buf[:self.LENGTH_BYTES], "big")
+                if len(self._recv_buf) >= end:
+                    raw_msg = self._recv_buf[self.LENGTH_BYTES:end]
+                    self._recv_buf = self._recv_buf[end:]
+                    return raw_msg
+            data = self._app_socket.recv(maxsize)
+            if not data:
+                raise RuntimeError("No message to receive (connection closed)")
+            self._recv_buf += data
 
     @staticmethod
     def _serialize_msg(msg):
